@@ -188,31 +188,32 @@ fn add<S: Subject>(jobs: &mut Vec<Box<dyn JobT>>, variant: &str, disc: Disc, w: 
     let pc = PlanCfg::new(w).steps(6, 28).editors(2, 4).observers(0, 2);
     let ctx = Ctx::new(disc).newest();
     let label = format!("{}/{:?}/{variant}", S::name(), disc);
-    jobs.push(job(label, q, t, move || plan_strategy(&pc), move |p: &Plan, st: &mut Stats| check_equal_state::<S>(p, &ctx, st, eq_ex)).floor("nontrivial", floor).boxed());
+    jobs.push(job(label, q, t, { let pc = pc.clone(); move || plan_strategy(&pc) }, move |p: &Plan, st: &mut Stats| check_equal_state::<S>(p, &ctx, st, eq_ex)).decoder({ let pc = pc.clone(); move |d: &[u8]| decode_plan(&pc, d) })
+            .floor("nontrivial", floor).boxed());
 }
 
 pub fn property() -> Property {
     let mut jobs: Vec<Box<dyn JobT>> = Vec::new();
     let ops = || Weights::ops_only().with_redeliver(14);
     let mixed = || Weights::mixed().with_redeliver(10);
-    add::<SOrswot>(&mut jobs, "ops", Disc::Causal, ops(), &[], 5000, 150_000, 0.03);
-    add::<SOrswot>(&mut jobs, "ops+merges", Disc::Fifo, mixed(), &[], 5000, 150_000, 0.03);
-    add::<SMVReg>(&mut jobs, "ops+merges", Disc::Any, mixed(), &[], 5000, 150_000, 0.03);
-    add::<MapOrswot>(&mut jobs, "ops", Disc::Causal, ops(), &[Class::T4], 5000, 150_000, 0.03);
-    add::<MapOrswot>(&mut jobs, "ops+merges", Disc::Causal, mixed(), &[Class::T1, Class::T4], 5000, 150_000, 0.03);
-    add::<MapMVReg>(&mut jobs, "ops", Disc::Causal, ops(), &[Class::T2, Class::T2b], 5000, 150_000, 0.03);
-    add::<MapMVReg>(&mut jobs, "ops+merges", Disc::Causal, mixed(), &[Class::T1, Class::T2, Class::T2b, Class::T5], 5000, 150_000, 0.03);
-    add::<MapMapMVReg>(&mut jobs, "ops", Disc::Causal, ops(), &[Class::T2, Class::T2b, Class::T4], 4000, 100_000, 0.03);
-    add::<SList>(&mut jobs, "ops", Disc::Causal, ops(), &[], 3000, 60_000, 0.03);
-    add::<SGList>(&mut jobs, "ops+merges", Disc::Any, mixed(), &[], 2000, 40_000, 0.03);
-    add::<SMerkle>(&mut jobs, "ops+merges", Disc::Any, mixed(), &[], 2000, 40_000, 0.03);
-    add::<SVClock>(&mut jobs, "ops+merges", Disc::Any, mixed(), &[], 1000, 20_000, 0.03);
-    add::<SGCounter>(&mut jobs, "ops+merges", Disc::Any, mixed(), &[], 1000, 20_000, 0.03);
-    add::<SPNCounter>(&mut jobs, "ops+merges", Disc::Any, mixed(), &[], 1000, 20_000, 0.03);
-    add::<SGSet>(&mut jobs, "ops+merges", Disc::Any, mixed(), &[], 1000, 20_000, 0.03);
-    add::<SLww>(&mut jobs, "ops+merges", Disc::Any, mixed(), &[], 1000, 20_000, 0.03);
-    add::<SMax>(&mut jobs, "ops+merges", Disc::Any, mixed(), &[], 1000, 20_000, 0.03);
-    add::<SMin>(&mut jobs, "ops+merges", Disc::Any, mixed(), &[], 1000, 20_000, 0.03);
+    add::<SOrswot>(&mut jobs, "ops", Disc::Causal, ops(), &[], 15000, 150_000, 0.03);
+    add::<SOrswot>(&mut jobs, "ops+merges", Disc::Fifo, mixed(), &[], 15000, 150_000, 0.03);
+    add::<SMVReg>(&mut jobs, "ops+merges", Disc::Any, mixed(), &[], 15000, 150_000, 0.03);
+    add::<MapOrswot>(&mut jobs, "ops", Disc::Causal, ops(), &[Class::T4], 15000, 150_000, 0.03);
+    add::<MapOrswot>(&mut jobs, "ops+merges", Disc::Causal, mixed(), &[Class::T1, Class::T4], 15000, 150_000, 0.03);
+    add::<MapMVReg>(&mut jobs, "ops", Disc::Causal, ops(), &[Class::T2, Class::T2b], 15000, 150_000, 0.03);
+    add::<MapMVReg>(&mut jobs, "ops+merges", Disc::Causal, mixed(), &[Class::T1, Class::T2, Class::T2b, Class::T5], 15000, 150_000, 0.03);
+    add::<MapMapMVReg>(&mut jobs, "ops", Disc::Causal, ops(), &[Class::T2, Class::T2b, Class::T4], 12000, 100_000, 0.03);
+    add::<SList>(&mut jobs, "ops", Disc::Causal, ops(), &[], 9000, 60_000, 0.03);
+    add::<SGList>(&mut jobs, "ops+merges", Disc::Any, mixed(), &[], 6000, 40_000, 0.03);
+    add::<SMerkle>(&mut jobs, "ops+merges", Disc::Any, mixed(), &[], 6000, 40_000, 0.03);
+    add::<SVClock>(&mut jobs, "ops+merges", Disc::Any, mixed(), &[], 3000, 20_000, 0.03);
+    add::<SGCounter>(&mut jobs, "ops+merges", Disc::Any, mixed(), &[], 3000, 20_000, 0.03);
+    add::<SPNCounter>(&mut jobs, "ops+merges", Disc::Any, mixed(), &[], 3000, 20_000, 0.03);
+    add::<SGSet>(&mut jobs, "ops+merges", Disc::Any, mixed(), &[], 3000, 20_000, 0.03);
+    add::<SLww>(&mut jobs, "ops+merges", Disc::Any, mixed(), &[], 3000, 20_000, 0.03);
+    add::<SMax>(&mut jobs, "ops+merges", Disc::Any, mixed(), &[], 3000, 20_000, 0.03);
+    add::<SMin>(&mut jobs, "ops+merges", Disc::Any, mixed(), &[], 3000, 20_000, 0.03);
     Property {
         id: "C20",
         rule: "C01/C03 histories (ops only; ops+merges; duplicates) under every type's documented discipline. (i) After every step the affected replica must be == (both directions; a panic inside == is a failure) to every replica with the same knowledge set and to a fresh replica fed the same updates one by one in another generated order. (ii) Whenever every remove the replica knows is fully covered by the dots it knows (model), its serde state tree must show no residue at any depth (every pending-remove table empty, no member/key/value with an empty clock) and, for top-level Orswot and MVReg, the state must == the canonical state rebuilt from the model (replica clock + surviving elements with their exact witnesses, built via Deserialize). Non-trivial = the two compared states learned the same set through different routes (different op orders, or ops vs merges) and the set contains a remove that covers some but not all witnesses of what it targets (types without removes: >=3 updates with concurrent ones on one element); distinct = distinct Plan hash.".into(),
